@@ -398,35 +398,6 @@ fn folded_keep_only(doc: &[u8], got: &str, want: &str) -> bool {
     has_folded_keep && got != want && squash(got) == squash(want)
 }
 
-/// Loader-defect shape K6: on a line that opens a compact NESTED sequence (`- - …`), a block scalar
-/// with an explicit indentation indicator, either as the item itself (`- - |2`) or as the value of
-/// the item's first key (`- - k: >3-`).  The loader takes the indicator relative to the line's first
-/// dash (+2) instead of the indentation of the node that owns the scalar (YAML 1.2 [185]/[186]), so
-/// the value it reads differs from the document's and no re-emission of it loads back (C14 domain).
-fn nested_seq_indicator(doc: &[u8]) -> bool {
-    String::from_utf8_lossy(doc).split('\n').any(|line| {
-        let mut l = line.trim_start();
-        if !l.starts_with("- - ") {
-            return false;
-        }
-        while let Some(r) = l.strip_prefix("- ") {
-            l = r.trim_start();
-        }
-        // drop a trailing comment, then look at the last token of the line
-        let l = match l.find(" #") {
-            Some(p) => &l[..p],
-            None => l,
-        };
-        let l = l.trim_end();
-        let tok = l.rsplit(' ').next().unwrap_or("");
-        let is_header = (tok.starts_with('|') || tok.starts_with('>'))
-            && tok[1..].bytes().all(|b| b == b'+' || b == b'-' || b.is_ascii_digit())
-            && tok.bytes().any(|b| b.is_ascii_digit());
-        // the header is the whole item, or follows `key:` (possibly with an anchor/tag before it)
-        is_header && (l.len() == tok.len() || l[..l.len() - tok.len()].contains(": ") || l[..l.len() - tok.len()].trim_end().ends_with(':'))
-    })
-}
-
 /// Loader-defect shape K7: the first key of a compact sequence-item mapping has its value deferred
 /// to the following lines (`- key:`) and that value is a multi-line PLAIN scalar; the loader keeps
 /// only its first line and reads the continuation line as a further key (`- d:\n   u\n   v` loads as
@@ -459,9 +430,19 @@ fn is_pure_path(prog: &str) -> bool {
     !prog.is_empty() && prog.chars().all(|c| c.is_alphanumeric() || "._[]\" ".contains(c))
 }
 
-fn cli_loop(doc: &[u8], prog: &str, indent: usize) -> String {
+/// `flags`: letters of output-shaping options applied to the YAML run — `S` --sort-keys (also given
+/// to both JSON runs, so the comparison is by value), `P` --prettyPrint, `N` --no-doc (single
+/// documents only), `T` --tab.
+fn cli_loop(doc: &[u8], prog: &str, indent: usize, flags: &str) -> String {
     let ind = indent.to_string();
-    let (rc2, j_out, _) = run_cli(&["yq", "-o", "json", "-I", "0", prog], doc);
+    let sort = flags.contains('S');
+    let mut jargs: Vec<&str> = vec!["yq", "-o", "json", "-I", "0"];
+    if sort {
+        jargs.push("-S");
+    }
+    let mut jrun = jargs.clone();
+    jrun.push(prog);
+    let (rc2, j_out, _) = run_cli(&jrun, doc);
     if indent > 7 {
         // clap rejects --indent outside 0..=7: no YAML is printed at all
         let (rc1, y_out, _) = run_cli(&["yq", "-I", &ind, prog], doc);
@@ -473,7 +454,14 @@ fn cli_loop(doc: &[u8], prog: &str, indent: usize) -> String {
     if rc2 != 0 {
         return "SKIP-ERR".into();
     }
-    let (rc1, y_out, y_err) = run_cli(&["yq", "-I", &ind, prog], doc);
+    let mut yargs: Vec<&str> = vec!["yq", "-I", &ind];
+    for (c, a) in [('S', "-S"), ('P', "-P"), ('N', "-N"), ('T', "--tab")] {
+        if flags.contains(c) {
+            yargs.push(a);
+        }
+    }
+    yargs.push(prog);
+    let (rc1, y_out, y_err) = run_cli(&yargs, doc);
     if rc1 != 0 {
         return format!("LOOP-FAIL yaml-run rc={rc1} err={}", hex_bytes(&y_err[..y_err.len().min(80)]));
     }
@@ -482,14 +470,28 @@ fn cli_loop(doc: &[u8], prog: &str, indent: usize) -> String {
     let raw_string_result = String::from_utf8_lossy(&j_out).split('\n').any(|l| l.starts_with('"'));
     if let (Err(name), false) = (alias_order_ok(&y_txt), raw_string_result) {
         let route = if prog == "." { "identity" } else if is_pure_path(prog) { "nav" } else { "write" };
-        let cls = if seq_first_key_multiline_plain(doc) { "loader-K7" } else { alias_class(doc, &name) };
+        // the anchor IS printed, but after the alias (a reordering emitter: `--sort-keys`)
+        let printed_later = y_txt.match_indices(&format!("&{name}")).any(|(i, m)| {
+            !y_txt[i + m.len()..].starts_with(|c: char| c.is_alphanumeric() || c == '_')
+        });
+        let cls = if seq_first_key_multiline_plain(doc) {
+            "loader-K7"
+        } else if printed_later && alias_class(doc, &name) == "anchor-outside-result" {
+            // declared once in the input and printed, but after the alias
+            "anchor-after-alias"
+        } else {
+            alias_class(doc, &name)
+        };
         return format!("ALIAS-FAIL {cls} route={route} name={name} out={}", hex_bytes(&y_out[..y_out.len().min(300)]));
     }
-    let (rc3, r_out, r_err) = run_cli(&["yq", "-o", "json", "-I", "0", "."], &y_out);
+    let mut jreload = jargs.clone();
+    jreload.push(".");
+    let (rc3, r_out, r_err) = run_cli(&jreload, &y_out);
     let want = String::from_utf8_lossy(&j_out).trim_end().to_string();
     // `-o json -I 0` prints one result per line: some result is a bare string scalar
     let root_scalar = want.split('\n').any(|l| l.starts_with('"'));
-    let tag = if root_scalar { "root-scalar-raw" } else { "value" };
+    // `--tab` indents with tab characters, which YAML does not allow as indentation
+    let tag = if root_scalar { "root-scalar-raw" } else if flags.contains('T') { "tab-indent" } else { "value" };
     if rc3 != 0 {
         return format!(
             "LOOP-FAIL {tag} reload-error out={} err={}",
@@ -503,8 +505,6 @@ fn cli_loop(doc: &[u8], prog: &str, indent: usize) -> String {
     } else {
         let tag = if folded_keep_only(doc, &got, &want) {
             "folded-keep-extra-break"
-        } else if nested_seq_indicator(doc) {
-            "loader-K6"
         } else if seq_first_key_multiline_plain(doc) {
             "loader-K7"
         } else {
@@ -701,8 +701,6 @@ pub fn exec(a: &[&str]) -> String {
                     "LOOP-FAIL {} out={} got={} want={}",
                     if folded_keep_only(&doc, &got, &want) {
                         "folded-keep-extra-break"
-                    } else if nested_seq_indicator(&doc) {
-                        "loader-K6"
                     } else if seq_first_key_multiline_plain(&doc) {
                         "loader-K7"
                     } else {
@@ -725,7 +723,7 @@ pub fn exec(a: &[&str]) -> String {
             }
             let doc = parse_bytes(a[1]);
             let Some(prog) = unhex(a[2]) else { return "BAD-UTF8".into() };
-            cli_loop(&doc, &prog, num(a[3]))
+            cli_loop(&doc, &prog, num(a[3]), a.get(4).copied().unwrap_or("-"))
         }
         _ => "BAD-OP".into(),
     }
@@ -1253,6 +1251,153 @@ fn gen_block_scalar_doc(r: &mut Rng) -> String {
     out
 }
 
+/// Documents for the option matrix: anchors and aliases whose declaration order differs from the
+/// sorted key order, in block and flow mappings / sequences (one-line, and multi-line with trailing
+/// comments on entries, which switch the DOM emitter from flow to sorted block rendering), merge
+/// keys, nested combinations.  Returns the document and the top-level keys it uses.
+fn gen_anchor_order_doc(r: &mut Rng) -> (String, Vec<&'static str>) {
+    const POOL: &[&str] = &["z", "y", "x", "m", "k", "d", "b", "a"];
+    fn keys(r: &mut Rng, n: usize) -> Vec<&'static str> {
+        let mut ks: Vec<&'static str> = Vec::new();
+        while ks.len() < n {
+            let k = POOL[r.usize_below(POOL.len())];
+            if !ks.contains(&k) {
+                ks.push(k);
+            }
+        }
+        // mostly descending (declaration order opposite to sorted order), sometimes random
+        if r.chance(2, 3) {
+            ks.sort();
+            ks.reverse();
+        }
+        ks
+    }
+    struct St {
+        scalars: Vec<String>, // anchors on scalars
+        maps: Vec<String>,    // anchors on mappings
+        next: usize,
+    }
+    // one entry value written inline (flow-safe): scalar, anchored scalar, alias, small flow map
+    fn inline(r: &mut Rng, st: &mut St) -> String {
+        match r.below(7) {
+            0 | 1 if !st.scalars.is_empty() => format!("*{}", st.scalars[r.usize_below(st.scalars.len())]),
+            2 | 3 => {
+                let n = format!("a{}", st.next);
+                st.next += 1;
+                st.scalars.push(n.clone());
+                format!("&{n} {}", r.range(1, 9))
+            }
+            4 => {
+                let n = format!("a{}", st.next);
+                st.next += 1;
+                st.maps.push(n.clone());
+                format!("&{n} {{p: {}, q: w}}", r.range(1, 9))
+            }
+            5 if !st.maps.is_empty() => format!("*{}", st.maps[r.usize_below(st.maps.len())]),
+            _ => (*r.pick(&["1", "v", "true", "two words"])).to_string(),
+        }
+    }
+    fn container(r: &mut Rng, st: &mut St, ind: usize, depth: usize, out: &mut String) {
+        let pad = " ".repeat(ind);
+        let n = r.range(2, 4) as usize;
+        let ks = keys(r, n);
+        match r.below(6) {
+            // block mapping
+            0 | 1 => {
+                for k in &ks {
+                    if depth < 2 && r.chance(1, 4) {
+                        out.push_str(&format!("\n{pad}{k}:"));
+                        container(r, st, ind + 2, depth + 1, out);
+                    } else if !st.maps.is_empty() && r.chance(1, 5) {
+                        let m = st.maps[r.usize_below(st.maps.len())].clone();
+                        out.push_str(&format!("\n{pad}{k}:\n{pad}  <<: *{m}\n{pad}  own: 1"));
+                    } else {
+                        out.push_str(&format!("\n{pad}{k}: {}", inline(r, st)));
+                        if r.chance(1, 4) {
+                            out.push_str(" # c");
+                        }
+                    }
+                }
+            }
+            // one-line flow mapping
+            2 => {
+                let items: Vec<String> = ks.iter().map(|k| format!("{k}: {}", inline(r, st))).collect();
+                out.push_str(&format!(" {{{}}}", items.join(", ")));
+            }
+            // multi-line flow mapping, trailing comments on entries
+            3 => {
+                out.push_str(" {");
+                for (i, k) in ks.iter().enumerate() {
+                    let v = inline(r, st);
+                    let comma = if i + 1 < ks.len() { "," } else { "" };
+                    let c = if r.chance(1, 2) { " # d" } else { "" };
+                    out.push_str(&format!("\n{pad}  {k}: {v}{comma}{c}"));
+                }
+                out.push_str(&format!("\n{pad}}}"));
+            }
+            // block sequence
+            4 => {
+                for _ in 0..n {
+                    out.push_str(&format!("\n{pad}- {}", inline(r, st)));
+                    if r.chance(1, 4) {
+                        out.push_str(" # c");
+                    }
+                }
+            }
+            // flow sequence, one-line or multi-line with a comment
+            _ => {
+                if r.chance(1, 2) {
+                    let items: Vec<String> = (0..n).map(|_| inline(r, st)).collect();
+                    out.push_str(&format!(" [{}]", items.join(", ")));
+                } else {
+                    out.push_str(" [");
+                    for i in 0..n {
+                        let v = inline(r, st);
+                        let comma = if i + 1 < n { "," } else { "" };
+                        let c = if r.chance(1, 2) { " # d" } else { "" };
+                        out.push_str(&format!("\n{pad}  {v}{comma}{c}"));
+                    }
+                    out.push_str(&format!("\n{pad}]"));
+                }
+            }
+        }
+    }
+    let mut st = St { scalars: Vec::new(), maps: Vec::new(), next: 0 };
+    let ntop = r.range(2, 4) as usize;
+    let top = keys(r, ntop);
+    let mut out = String::new();
+    for (i, k) in top.iter().enumerate() {
+        if i > 0 {
+            out.push('\n');
+        }
+        out.push_str(&format!("{k}:"));
+        if r.chance(1, 4) {
+            out.push_str(&format!(" {}", inline(r, &mut st)));
+        } else {
+            container(r, &mut st, 2, 0, &mut out);
+        }
+    }
+    out.push_str("\nt: 1\n");
+    (out, top)
+}
+
+fn gen_option_prog(r: &mut Rng, top: &[&str]) -> String {
+    let k = top[r.usize_below(top.len())];
+    let k2 = *r.pick(&["z", "a", "m", "p", "own", "new"]);
+    match r.below(12) {
+        0 | 1 => ".".to_string(),
+        2 => format!(".{k}"),
+        3 | 4 => ".c = 1".to_string(),
+        5 => format!(".{k}.{k2} = 5"),
+        6 => "del(.t)".to_string(),
+        7 => format!(".{k} |= ."),
+        8 => ". * {\"n\": {\"s\": 1}}".to_string(),
+        9 => format!("del(.{k}.{k2})"),
+        10 => ".t |= 2".to_string(),
+        _ => format!(".{k}[0] = 7"),
+    }
+}
+
 /// Does the JSON text at `j[*ji..]` denote the mapping encoded at `e[*ei..]` (entries up to `]`)?
 fn json_matches_tree(e: &[u8], ei: &mut usize, j: &[u8], ji: &mut usize) -> bool {
     fn hexstr(e: &[u8], ei: &mut usize) -> String {
@@ -1487,9 +1632,9 @@ pub fn gen(tier: Tier, r: &mut Rng, emit: &mut dyn FnMut(String)) {
     while docs.len() < n_docs && tries < n_docs * 4 {
         tries += 1;
         let d = if tries % 3 == 0 { gen_block_scalar_doc(r) } else { gen_doc(r) };
-        // documents of the loader-defect shape K6 are not generated (one corpus line each keeps
-        // the shape under its known finding)
-        if load_json(d.as_bytes()).is_ok() && !nested_seq_indicator(d.as_bytes()) && !seq_first_key_multiline_plain(d.as_bytes()) {
+        // documents of the loader-defect shape K7 are not generated (a corpus line keeps the shape
+        // under its known finding)
+        if load_json(d.as_bytes()).is_ok() && !seq_first_key_multiline_plain(d.as_bytes()) {
             docs.push(d);
         }
     }
@@ -1505,6 +1650,29 @@ pub fn gen(tier: Tier, r: &mut Rng, emit: &mut dyn FnMut(String)) {
         let ind = if i % 40 == 0 { 8 } else { r.below(8) };
         reqs.push(format!("cli {} {} {ind}", hx(d), hx(&p)));
     }
+    // option matrix × both emit paths on anchor-order documents
+    let n_opt = if quick { 400 } else { 6_000 };
+    let mut made = 0;
+    let mut tries = 0;
+    while made < n_opt && tries < n_opt * 4 {
+        tries += 1;
+        let (d, top) = gen_anchor_order_doc(r);
+        if load_json(d.as_bytes()).is_err() {
+            continue;
+        }
+        made += 1;
+        let p = gen_option_prog(r, &top);
+        let flags = *r.pick(&["S", "S", "S", "SP", "P", "N", "SN", "-", "SPN", "T"]);
+        reqs.push(format!("cli {} {} {} {flags}", hx(&d), hx(&p), r.below(8)));
+    }
+    // the general documents under the flags as well
+    for _ in 0..(n_opt / 4) {
+        let d = &docs[r.usize_below(docs.len())];
+        let multi = d.contains("\n---") || d.starts_with("---");
+        let flags = if multi { *r.pick(&["S", "P", "SP"]) } else { *r.pick(&["S", "P", "SP", "N", "SN"]) };
+        let p = gen_prog(r);
+        reqs.push(format!("cli {} {} {} {flags}", hx(d), hx(&p), r.below(8)));
+    }
     let workers = 8;
     let results: Vec<(String, String)> = std::thread::scope(|sc| {
         let chunks: Vec<Vec<String>> = (0..workers).map(|w| reqs.iter().skip(w).step_by(workers).cloned().collect()).collect();
@@ -1517,7 +1685,8 @@ pub fn gen(tier: Tier, r: &mut Rng, emit: &mut dyn FnMut(String)) {
                             let a: Vec<&str> = q.split(' ').collect();
                             let doc = parse_bytes(a[1]);
                             let prog = unhex(a[2]).unwrap_or_default();
-                            let res = std::panic::catch_unwind(|| cli_loop(&doc, &prog, num(a[3]))).unwrap_or_else(|_| "PANIC".into());
+                            let fl = a.get(4).copied().unwrap_or("-").to_string();
+                            let res = std::panic::catch_unwind(|| cli_loop(&doc, &prog, num(a[3]), &fl)).unwrap_or_else(|_| "PANIC".into());
                             (q, res)
                         })
                         .collect::<Vec<_>>()
